@@ -146,6 +146,33 @@ def handleC03 (cmd : String) (args : List Sexp) : Option Sexp :=
               Sexp.list ((coords w.leafShape).map (fun c => match w.written c with
                 | none => ofInt (-1)
                 | some vc => ofNat (ravel e.shape vc)))])))
+  -- td._get_sub_tensordict(idx): batch size, names, every leaf as seen through the sub-tensordict
+  | "c03.sub", [bs, nm, .list (.atom "leaves" :: ls), idx] => do
+      let td : Td.TD := { bs := (← shape? bs), names := (← names? nm), leaves := (← ls.mapM shape?), nested := [] }
+      let idx ← pyIndex? idx
+      pure (match Td.subInit td idx with
+        | .error e => errToSexp e
+        | .ok sub =>
+          match Td.subNames td sub, (List.range td.leaves.length).mapM (Td.subGet td sub) with
+          | .ok nms, .ok rs =>
+            tagged "ok" [tagged "bs" (sub.bs.map ofNat), namesToSexp nms,
+              tagged "leaves" ((td.leaves.zip rs).map (fun (feat, r) => leafToSexp (td.bs ++ feat) r))]
+          | .error e, _ => tagged "ok" [tagged "bs" (sub.bs.map ofNat), errToSexp e]
+          | _, .error e => tagged "ok" [tagged "bs" (sub.bs.map ofNat), errToSexp e])
+  -- sub.set_(key, value) / sub.set(new key, value): (c03.subset bs leaves idx target|new (shape ..))
+  | "c03.subset", [bs, .list (.atom "leaves" :: ls), idx, t, sh] => do
+      let td : Td.TD := { bs := (← shape? bs), names := none, leaves := (← ls.mapM shape?), nested := [] }
+      let idx ← pyIndex? idx; let sh ← shape? sh
+      let target ← (match t with | Sexp.atom "new" => some (none : Option Nat) | t => (asNat? t).map some)
+      pure (match Td.subInit td idx with
+        | .error e => errToSexp e
+        | .ok sub =>
+          match Td.subSet td sub target sh with
+          | .error e => errToSexp e
+          | .ok w => tagged "ok" [tagged "shape" (w.leafShape.map ofNat),
+              Sexp.list ((coords w.leafShape).map (fun c => match w.written c with
+                | none => ofInt (-1)
+                | some vc => ofNat (ravel sh vc)))])
   | "c03.torchset", [dims, idx, v] => do
       let dims ← shape? dims; let idx ← pyIndex? idx; let v ← shape? v
       pure (match TorchSpec.setIndex dims idx.items v with
